@@ -59,7 +59,10 @@ func init() {
 				shapes = append(shapes, tvStr(d))
 			}
 			shapes = append(shapes, tvSlice("[]string", tvStr("1:3"), tvStr("7:9:2")), tvSlice("[]string", tvStr("1:3"), tvStr("x")),
-				tvList(tvStr("1:3"), tvStr("5:6")), tvList(tvStr("1:3"), tvInt("int", 5)))
+				tvList(tvStr("1:3"), tvStr("5:6")), tvList(tvStr("1:3"), tvInt("int", 5)),
+				// lists of descriptions in every relative position: later below, later wider, overlapping, stepped, repeated
+				tvSlice("[]string", tvStr("10:12"), tvStr("1:3")), tvSlice("[]string", tvStr("5:9"), tvStr("1:20")), tvSlice("[]string", tvStr("0:10:5"), tvStr("1:9:2")),
+				tvList(tvStr("10:12"), tvStr("1:3"), tvStr("11:13")), tvList(tvStr("1:5"), tvStr("3:8"), tvStr("1:5")), tvSlice("[]string", tvStr("7:7"), tvStr("7:7"), tvStr("2:2")))
 			for _, v := range shapes {
 				for _, p := range []string{"", "number", "strhash", "numrange"} {
 					add(pIn{K: "parse", Parser: p, Assign: false, V: v})
